@@ -31,6 +31,7 @@ import (
 	"github.com/corazawaf/coraza/v3/internal/environment"
 	stringsutil "github.com/corazawaf/coraza/v3/internal/strings"
 	urlutil "github.com/corazawaf/coraza/v3/internal/url"
+	"github.com/corazawaf/coraza/v3/internal/verifhook"
 	"github.com/corazawaf/coraza/v3/types"
 	"github.com/corazawaf/coraza/v3/types/variables"
 )
@@ -1664,6 +1665,7 @@ func (tx *Transaction) auditLogCollectFiles() []plugintypes.AuditLogTransactionR
 // This method helps the GC to clean up the transaction faster and release resources
 // It also allows caches the transaction back into the sync.Pool
 func (tx *Transaction) Close() error {
+	verifhook.Event(verifhook.PoolPut, tx, 0, 0)
 	defer tx.WAF.txPool.Put(tx)
 
 	var errs []error
